@@ -33,7 +33,7 @@ namespace {
 
 enum Op : int32_t {
   OP_COMM_SIZE = 1, OP_COMM_RANK, OP_ISEND, OP_IRECV, OP_ICOLL, OP_CANCEL, OP_LOG, OP_COMM_FREE,
-  OP_TEST = 100, OP_WAITSOME, OP_WAIT, OP_COLL, OP_FINALIZE
+  OP_TEST = 100, OP_WAITSOME, OP_WAIT, OP_COLL, OP_FINALIZE, OP_GATE
 };
 enum CollKind : int32_t { CK_BARRIER = 1, CK_ALLREDUCE, CK_ALLGATHER, CK_EXSCAN, CK_BCAST, CK_DUP, CK_SPLIT, CK_SCAN };
 
@@ -148,13 +148,17 @@ int MPI_Waitsome(int n, MPI_Request* rqs, int* outcount, int* idx, MPI_Status* s
 int MPI_Send(const void* b, int n, MPI_Datatype dt, int d, int t, MPI_Comm c) { MPI_Request r; post_send(b, n, dt, d, t, c, 0, &r); return wait_one(&r, nullptr); }
 int MPI_Recv(void* b, int n, MPI_Datatype dt, int s, int t, MPI_Comm c, MPI_Status* st) { MPI_Request r; MPI_Irecv(b, n, dt, s, t, c, &r); return wait_one(&r, st); }
 void simmpi_log(const char* line) { call(OP_LOG, {}, line, strlen(line)); }
+// directed schedules: block the calling rank until the coordinator has observed a condition (or max_steps scheduling
+// steps have passed: a gate never deadlocks a run).  kind 0: rank `who`, after logging the harness line "E <epoch>", has
+// posted >= count non-blocking collectives;  kind 1: >= count further messages have been delivered to rank `who`
+void simmpi_gate(int kind, int who, int epoch, int count, int max_steps) { call(OP_GATE, {kind, who, epoch, count, max_steps}); }
 }
 
 // ============================================================== coordinator
 namespace {
 struct Rng { uint64_t s; uint64_t next() { uint64_t z = (s += 0x9e3779b97f4a7c15ULL); z = (z ^ (z >> 30)) * 0xbf58476d1ce4e5b9ULL; z = (z ^ (z >> 27)) * 0x94d049bb133111ebULL; return z ^ (z >> 31); } uint64_t below(uint64_t n) { return next() % n; } };
 
-struct Msg { int id; int comm; int src; int dst; int tag; std::vector<char> data; bool sync; bool eager; int sreq; bool matched = false; };
+struct Msg { int id; int comm; int src; int dst; int tag; std::vector<char> data; bool sync; bool eager; int sreq; bool matched = false; long t_enq = 0; };
 struct Req { int owner; int id; int kind; bool done = false; bool cancelled = false;
   // recv
   int comm = 0, src = 0, tag = 0; uint64_t cap = 0; std::shared_ptr<Msg> msg;
@@ -164,7 +168,7 @@ struct Req { int owner; int id; int kind; bool done = false; bool cancelled = fa
   int seq = 0; };
 struct CollInst { int kind = 0, dt = 0, op = 0, count = 0, root = 0; int arrived = 0; std::vector<std::vector<char>> contrib; std::vector<char> have; bool computed = false; std::vector<std::vector<char>> result; std::vector<int> ret; };
 struct Comm { std::vector<int> members; std::vector<int> seq; std::map<int, CollInst> inst; };
-struct RankSt { int fd; pid_t pid; bool reaped = false; int state; /*0 running 1 blocked 2 done*/ Hdr h; std::vector<char> payload; std::map<int, std::shared_ptr<Req>> reqs; std::vector<std::shared_ptr<Req>> posted; std::vector<std::shared_ptr<Msg>> unexpected; };
+struct RankSt { int fd; pid_t pid; bool reaped = false; int state; /*0 running 1 blocked 2 done*/ Hdr h; std::vector<char> payload; std::map<int, std::shared_ptr<Req>> reqs; std::vector<std::shared_ptr<Req>> posted; std::vector<std::shared_ptr<Msg>> unexpected; int epoch = -1; long icolls = 0; long delivered = 0; long gate_base = 0, gate_t0 = 0; };
 
 struct Coord {
   int N = 1, P = 1, n = 1; Rng rng{1}; std::vector<RankSt> rk; std::map<int, Comm> comms; int next_comm = 2; int next_msg = 1;
@@ -173,6 +177,7 @@ struct Coord {
   std::string policy = "uniform"; int racer = 0; long livelock_k = 400000; long since_progress = 0; long n_deliver = 0, n_complete = 0, n_answer = 0, n_false = 0;
   std::string verdict = "ok"; time_t t_start = time(nullptr); long wall_budget = 900; long immediate_run = 0, spin_k = 1500000; std::map<long, long> deviate; long decision = 0;
 
+  int hold_dst = -1; long hold_steps = 0;   // SIMMPI_HOLD=<dst>:<steps>: a message to dst is not delivered during its first <steps> scheduling steps (directed schedules)
   long log_written = 0, log_budget = 768L << 20;   // runaway handlers must not fill the disk
   void L(const char* fmt, ...) { if (!log) return; if (log_written > log_budget) { if (verdict == "ok") verdict = "log-budget"; return; }
     va_list ap; va_start(ap, fmt); log_written += fprintf(log, "%ld ", t); log_written += vfprintf(log, fmt, ap); fputc('\n', log); va_end(ap); }
@@ -247,15 +252,18 @@ struct Coord {
       case OP_COMM_SIZE: out.a[0] = (int)comms[h.a[0]].members.size(); reply(r, out); return true;
       case OP_COMM_RANK: out.a[0] = crank(h.a[0], r); reply(r, out); return true;
       case OP_COMM_FREE: reply(r, out); return true;
-      case OP_LOG: L("h r=%d %.*s", r, (int)pl.size(), pl.data()); reply(r, out); return true;
-      case OP_ISEND: { auto m = std::make_shared<Msg>(); m->id = next_msg++; m->comm = h.a[0]; m->src = r; m->dst = comms[h.a[0]].members[h.a[1]]; m->tag = h.a[2]; m->sync = h.a[3]; m->data = pl; m->eager = (int)rng.below(100) < eager_pct; m->sreq = h.a[4];
+      case OP_LOG: L("h r=%d %.*s", r, (int)pl.size(), pl.data());
+        if (pl.size() > 2 && pl[0] == 'E' && pl[1] == ' ') { R.epoch = atoi(std::string(pl.data() + 2, pl.size() - 2).c_str()); R.icolls = 0; }
+        reply(r, out); return true;
+      case OP_GATE: R.gate_t0 = t; R.gate_base = (h.a[0] == 1 && h.a[1] >= 0 && h.a[1] < n) ? rk[h.a[1]].delivered : 0; return false;
+      case OP_ISEND: { auto m = std::make_shared<Msg>(); m->id = next_msg++; m->comm = h.a[0]; m->src = r; m->dst = comms[h.a[0]].members[h.a[1]]; m->tag = h.a[2]; m->sync = h.a[3]; m->data = pl; m->eager = (int)rng.below(100) < eager_pct; m->sreq = h.a[4]; m->t_enq = t;
         auto q = std::make_shared<Req>(); q->owner = r; q->id = h.a[4]; q->kind = 0; q->smsg = m; R.reqs[q->id] = q; chan[{m->comm, {m->src, m->dst}}].push_back(m);
         L("isend r=%d dst=%d comm=%d msg=%d bytes=%zu sync=%d eager=%d data=%s", r, m->dst, m->comm, m->id, pl.size(), (int)m->sync, (int)m->eager, hex(pl).c_str()); reply(r, out); return true; }
       case OP_IRECV: { auto q = std::make_shared<Req>(); q->owner = r; q->id = h.a[3]; q->kind = 1; q->comm = h.a[0]; q->src = h.a[1]; q->tag = h.a[2]; q->cap = (uint64_t)h.a[4] | ((uint64_t)h.a[5] << 31); R.reqs[q->id] = q;
         L("irecv r=%d comm=%d req=%d", r, q->comm, q->id);
         bool bound = false; for (size_t i = 0; i < R.unexpected.size(); ++i) if (match(*q, *R.unexpected[i])) { auto m = R.unexpected[i]; R.unexpected.erase(R.unexpected.begin() + i); bind(q, m); bound = true; break; }
         if (!bound) R.posted.push_back(q); reply(r, out); return true; }
-      case OP_ICOLL: { auto q = std::make_shared<Req>(); q->owner = r; q->id = h.a[5]; q->kind = 2; q->comm = h.a[0]; R.reqs[q->id] = q;
+      case OP_ICOLL: { R.icolls++; auto q = std::make_shared<Req>(); q->owner = r; q->id = h.a[5]; q->kind = 2; q->comm = h.a[0]; R.reqs[q->id] = q;
         q->seq = contribute(r, h.a[0], h.a[1], h.a[2], h.a[3], h.a[4], 0, pl);
         if (pl.size() == 16) { uint64_t v[2]; memcpy(v, pl.data(), 16); L("iallreduce r=%d comm=%d seq=%d v0=%llu v1=%llu", r, q->comm, q->seq, (unsigned long long)v[0], (unsigned long long)v[1]); } else L("icoll r=%d comm=%d seq=%d", r, q->comm, q->seq);
         reply(r, out); return true; }
@@ -275,6 +283,9 @@ struct Coord {
       case OP_WAITSOME: { int n = h.a[0]; const int32_t* ids = (const int32_t*)R.payload.data(); for (int i = 0; i < n; ++i) if (ids[i] != MPI_REQUEST_NULL && reqdone(r, ids[i])) return true; return false; }
       case OP_COLL: return comms[h.a[0]].inst[h.a[6]].computed;
       case OP_FINALIZE: return true;
+      case OP_GATE: { if (t - R.gate_t0 > (long)h.a[4]) return true; int who = h.a[1]; if (who < 0 || who >= n) return true;
+        if (h.a[0] == 0) return rk[who].epoch > h.a[2] || (rk[who].epoch == h.a[2] && rk[who].icolls >= h.a[3]) || rk[who].state == 2;
+        return rk[who].delivered - R.gate_base >= h.a[3]; }
     }
     return false;
   }
@@ -288,6 +299,7 @@ struct Coord {
         out.a[0] = k; L("waitsome r=%d done=%s", r, which.c_str()); reply(r, out, pay.data(), pay.size()); break; }
       case OP_COLL: { auto& in = comms[h.a[0]].inst[h.a[6]]; int me = crank(h.a[0], r); out.a[0] = in.ret[me]; L("colldone r=%d comm=%d seq=%d", r, h.a[0], h.a[6]); reply(r, out, in.result[me].data(), in.result[me].size()); break; }
       case OP_FINALIZE: reply(r, out); break;
+      case OP_GATE: L("gate r=%d kind=%d who=%d %s", r, h.a[0], h.a[1], (t - R.gate_t0 > (long)h.a[4]) ? "timeout" : "open"); reply(r, out); break;
     }
     R.state = 0;
   }
@@ -318,7 +330,7 @@ struct Coord {
       RankSt& R = rk[r]; char b[160];
       if (R.state == 2) { snprintf(b, sizeof b, "r%d:done ", r); sig += b; continue; }
       size_t unmatched_to = 0; for (auto& kv : chan) if (kv.first.second.second == r) unmatched_to += kv.second.size();
-      const char* op = R.h.op == OP_TEST ? "test" : R.h.op == OP_WAIT ? "wait" : R.h.op == OP_WAITSOME ? "waitsome" : R.h.op == OP_COLL ? "coll" : R.h.op == OP_FINALIZE ? "finalize" : "?";
+      const char* op = R.h.op == OP_TEST ? "test" : R.h.op == OP_WAIT ? "wait" : R.h.op == OP_WAITSOME ? "waitsome" : R.h.op == OP_COLL ? "coll" : R.h.op == OP_FINALIZE ? "finalize" : R.h.op == OP_GATE ? "gate" : "?";
       if (R.h.op == OP_COLL) snprintf(b, sizeof b, "r%d:coll(kind=%d,comm=%d,inflight_to=%zu,unexp=%zu) ", r, R.h.a[1], R.h.a[0], unmatched_to, R.unexpected.size());
       else if (R.h.op == OP_WAIT) { auto it = R.reqs.find(R.h.a[0]); int k = it == R.reqs.end() ? -1 : it->second->kind; snprintf(b, sizeof b, "r%d:wait(kind=%d,inflight_to=%zu,unexp=%zu) ", r, k, unmatched_to, R.unexpected.size()); }
       else snprintf(b, sizeof b, "r%d:%s(inflight_to=%zu,unexp=%zu) ", r, op, unmatched_to, R.unexpected.size());
@@ -347,11 +359,17 @@ struct Coord {
       immediate_run = 0;
       std::vector<Act> acts;
       for (int r = 0; r < n; ++r) if (rk[r].state == 1) { bool f; if (answerable(r, f)) acts.push_back(Act{f ? 1 : 0, r, {}, 0, 0}); }
-      for (auto& kv : chan) if (!kv.second.empty()) acts.push_back(Act{2, 0, kv.first, 0, 0});
+      bool held = false;
+      for (auto& kv : chan) if (!kv.second.empty()) { if (kv.first.second.second == hold_dst && t - kv.second.front()->t_enq < hold_steps) { held = true; continue; } acts.push_back(Act{2, 0, kv.first, 0, 0}); }
+      if (held && acts.empty()) for (auto& kv : chan) if (!kv.second.empty()) acts.push_back(Act{2, 0, kv.first, 0, 0});   // never hold when nothing else can happen
       for (int r = 0; r < n; ++r) for (auto& kv : rk[r].reqs) { Req& q = *kv.second; if (q.kind == 0 && !q.done && ((q.smsg->eager && !q.smsg->sync) || q.smsg->matched)) acts.push_back(Act{3, r, {}, q.id, 0}); }
       bool only_false = true; for (auto& a : acts) if (a.kind != 1) only_false = false;
+      // a gate must never turn a live run into a deadlock: when nothing (or nothing but unsuccessful tests) is enabled, open the gates
+      if (acts.empty() || (only_false && falses_in_row > 64L * n)) {
+        bool opened = false; for (int r = 0; r < n; ++r) if (rk[r].state == 1 && rk[r].h.op == OP_GATE) { rk[r].h.a[4] = -1; acts.push_back(Act{0, r, {}, 0, 0}); opened = true; }
+        if (opened) only_false = false; }
       if (acts.empty()) { verdict = "deadlock"; break; }
-      if (only_false) { if (++falses_in_row > 256L * n) { verdict = "deadlock-spin"; break; } } else falses_in_row = 0;
+      if (only_false && !held) { if (++falses_in_row > 256L * n) { verdict = "deadlock-spin"; break; } } else falses_in_row = 0;
       long tot = 0; for (auto& a : acts) { a.weight = weight(a); tot += a.weight; }
       size_t i = 0;
       { long pick = (long)rng.below(tot); for (; i < acts.size(); ++i) { if (pick < acts[i].weight) break; pick -= acts[i].weight; } }
@@ -361,7 +379,7 @@ struct Coord {
       Act a = acts[i];
       if (a.kind == 0) { n_answer++; since_progress = 0; answer(a.r); pump(a.r); }
       else if (a.kind == 1) { n_false++; answer(a.r); pump(a.r); }
-      else if (a.kind == 2) { n_deliver++; since_progress = 0; auto m = chan[a.ch].front(); chan[a.ch].pop_front(); L("deliver msg=%d src=%d dst=%d", m->id, m->src, m->dst); arrive(m); }
+      else if (a.kind == 2) { n_deliver++; since_progress = 0; auto m = chan[a.ch].front(); chan[a.ch].pop_front(); L("deliver msg=%d src=%d dst=%d", m->id, m->src, m->dst); rk[m->dst].delivered++; arrive(m); }
       else { n_complete++; since_progress = 0; auto q = rk[a.r].reqs[a.req]; q->done = true; L("sendcomplete r=%d req=%d msg=%d", a.r, q->id, q->smsg->id); }
     }
     return 0;
@@ -377,6 +395,7 @@ int main(int argc, char** argv) {
   if ((e = getenv("SIMMPI_LOG"))) C.log = fopen(e, "w");
   if ((e = getenv("SIMMPI_POLICY"))) C.policy = e; if ((e = getenv("SIMMPI_WALL_S"))) C.wall_budget = atol(e); if ((e = getenv("SIMMPI_SPIN"))) C.spin_k = atol(e);
   if ((e = getenv("SIMMPI_DEVIATE"))) { std::string fs(e), tok; std::stringstream ss(fs); while (std::getline(ss, tok, ',')) { size_t c = tok.find(':'); if (c != std::string::npos) C.deviate[atol(tok.substr(0, c).c_str())] = atol(tok.substr(c + 1).c_str()); } } if ((e = getenv("SIMMPI_MAX_LOG_MB"))) C.log_budget = atol(e) << 20; if ((e = getenv("SIMMPI_LIVELOCK"))) C.livelock_k = atol(e);
+  if ((e = getenv("SIMMPI_HOLD"))) { if (sscanf(e, "%d:%ld", &C.hold_dst, &C.hold_steps) != 2) C.hold_dst = -1; }
   C.racer = (int)(C.rng.s % (uint64_t)C.n);
   signal(SIGPIPE, SIG_IGN);
   C.rk.resize(C.n); C.comms[MPI_COMM_WORLD].members.resize(C.n); C.comms[MPI_COMM_WORLD].seq.assign(C.n, 0);
